@@ -496,6 +496,24 @@ def check(ctx: Ctx, col: Collector, tier: str) -> None:
                                                          f"`from ._impl import read, fast_read as fread` both functions are written as `fread` into one stub file and `read` is lost; with "
                                                          f"`from ._v1 import Model as ModelV1` / `from ._v2 import Model` both classes are written to Model.sdsstub and ModelV1 is lost"
                                                          if not want_alias else "the alias of the declaration's own import is not applied"]))
+    # the packages a declaration can be moved to are those whose import leads to *it*: the key of a relative import starts at the importing package, so
+    # `pkg/a/__init__.py: from .impl import Foo` re-exports pkg.a.impl.Foo and not pkg.b.impl.Foo (evaluated on a concrete re-export map)
+    from ..core.absint import DictV
+    rbfi = repo.function(VISITOR, f"{VCLS}._get_reexported_by")
+    col.touched(rbfi)
+    for keyc, label in (("impl.Foo", "by name"), ("impl.*", "star")):
+        res = {}
+        for qn in ("pkg.a.impl.Foo", "pkg.b.impl.Foo"):
+            src = Obj("Module", (("id", Const("pkg/a")),))
+            api = Obj("API", (("reexport_map", DictV(((Const(keyc), ListV((src,), False, "set")),))),))
+            routs = ctx.interp(rbfi).run_function(rbfi, {"self": Sym("self"), "qname": Const(qn)}, State({"self": Sym("self"), "self.api": api}))
+            res[qn] = any(o.kind == "return" and "pkg/a" in repr(o.value) for o in routs)
+        good = res["pkg.a.impl.Foo"] and not res["pkg.b.impl.Foo"]
+        key = f"{VISITOR}::{VCLS}._get_reexported_by::import-leads-to-the-declaration::{keyc}"
+        (col.ok if good else col.bad)("C03.MOVE", key, repo.loc(VISITOR, rbfi.node), f"`from .impl import {'Foo' if label == 'by name' else '*'}` in pkg/a/__init__.py: re-exports pkg.a.impl.Foo={res['pkg.a.impl.Foo']}, pkg.b.impl.Foo={res['pkg.b.impl.Foo']}",
+                                      *([] if good else [f"a {label} import of pkg/a/__init__.py is taken for a re-export of every declaration whose qualified name ends like the imported text: `class Foo` of "
+                                                         f"pkg/b/impl.py is moved to package pkg.a (pkg/a/Foo.sdsstub), where it overwrites the stub of pkg.a.impl.Foo - one class is lost, the other "
+                                                         f"declared in a foreign package" if res["pkg.b.impl.Foo"] else "the re-export of the package's own module is not recognised"]))
     # an import under a private alias (`from .shapes import Circle as _Circle`) publishes nothing: the declaration stays where it is, under its own name
     qi = Obj("QualifiedImport", (("qualified_name", Const(".shapes.Circle")), ("alias", Const("_Circle"))))
     mod = Obj("Module", (("id", Const("pkg")), ("qualified_imports", ListV((qi,)))))
